@@ -33,45 +33,177 @@ structure GoodOrds (o : Ords) : Prop where
   storeS   : o.wakeStoreSync.isRelease = true
   storeA   : o.wakeStoreAsync.isRelease = true
 
-/-- The protocol invariant. -/
+theorem St.final_cases (x : St) : (x.isFinal = true ∧ (x = .unlocked ∨ x = .terminated)) ∨ (x.isFinal = false ∧ (x = .locked ∨ x = .starvation)) := by
+  cases x <;> simp [St.isFinal]
+
+/-- Proof pattern: open the step, discard disabled branches, name the new state. -/
+macro "sig_open" hs:ident : tactic =>
+  `(tactic| (
+    simp only [step] at $hs:ident
+    (repeat' (split at $hs:ident))
+    all_goals first | (cases $hs:ident; done) | skip
+    all_goals cases $hs:ident))
+
+/-! ### Layer A — the state word and the peer's position -/
+
+structure InvA (s : State) : Prop where
+  finalIs  : s.st.isFinal = true → s.st = s.fin
+  peerOut  : s.st.isFinal = true → (s.ppc = .done ∨ s.ppc = .unpark ∨ s.ppc = .wake)
+  peerDone : (s.ppc = .done ∨ s.ppc = .unpark ∨ s.ppc = .wake) → s.st.isFinal = true
+  finFinal : s.fin.isFinal = true
+  armA     : s.kind = .async → (s.ppc ≠ .cas ∧ s.ppc ≠ .readHandle ∧ s.ppc ≠ .storeSync ∧ s.ppc ≠ .unpark)
+  armS     : s.kind ≠ .async → (s.ppc ≠ .cloneWaker ∧ s.ppc ≠ .storeAsync ∧ s.ppc ≠ .wake)
+  wpcA     : s.kind = .async → (s.wpc ≠ .publish ∧ s.wpc ≠ .casStarv ∧ s.wpc ≠ .timedFinal ∧ s.wpc ≠ .timedIsTerm ∧
+                s.wpc ≠ .park ∧ s.wpc ≠ .parked ∧ s.wpc ≠ .parkLoad)
+  starvPc  : s.st = .starvation → (s.wpc = .park ∨ s.wpc = .parked ∨ s.wpc = .parkLoad)
+
+theorem invA_init (kind : WKind) (fin : St) (payload : Bool) (hf : fin.isFinal = true) : InvA (init kind fin payload) := by
+  cases kind <;> cases payload <;> constructor <;> simp_all [init, St.isFinal]
+
+theorem invA_step {o : Ords} {s s' : State} {e : Ev} (h : InvA s) (hs : step o s e = some s') : InvA s' := by
+  obtain ⟨h1, h2, h3, h4, h5, h6, h7, h8⟩ := h
+  have hc := St.final_cases s.st
+  have hf := St.final_cases s.fin
+  cases e <;> sig_open hs
+  all_goals constructor
+  all_goals grind [touch, St.isFinal]
+
+/-! ### The full protocol invariant -/
+
 structure Inv (s : State) : Prop where
+  a         : InvA s
   noRace    : s.racy = false
   noDangle  : s.dangling = false
-  finalIs   : s.st.isFinal = true → s.st = s.fin ∧ s.finRelease = true
-  peerOut   : s.st.isFinal = true → (s.ppc = .done ∨ s.ppc = .unpark ∨ s.ppc = .wake)
-  peerDone  : (s.ppc = .done ∨ s.ppc = .unpark ∨ s.ppc = .wake) → s.st.isFinal = true
+  finRel    : s.st.isFinal = true → s.finRelease = true
   doneSees  : ∀ v sy, s.wpc = .done v sy → v = s.st ∧ s.st.isFinal = true ∧ (s.slotTouched = true → sy = true)
   fenceSees : ∀ v, s.wpc = .fence v → v = s.st ∧ s.st.isFinal = true
   goneFinal : s.wpc = .gone → s.st.isFinal = true
   aliveIff  : s.alive = true ↔ s.wpc ≠ .gone
-  starv     : (s.st = .starvation ∨ s.ppc = .readHandle ∨ s.ppc = .storeSync) → s.cellWritten = true ∧ s.starvRelease = true
+  starv     : (s.st = .starvation ∨ s.ppc = .readHandle ∨ s.ppc = .storeSync ∨ s.ppc = .unpark) → s.cellWritten = true ∧ s.starvRelease = true
+  cellPc    : s.wpc = .casStarv → s.cellWritten = true
   cellSync  : (s.ppc = .readHandle) → s.peerSyncCell = true
-  parkSt    : (s.wpc = .park ∨ s.wpc = .parked ∨ s.wpc = .parkLoad) → s.st ≠ .locked ∧ s.kind ≠ .async
+  parkSt    : (s.wpc = .park ∨ s.wpc = .parked ∨ s.wpc = .parkLoad) → s.st ≠ .locked
   tokenDone : s.token = true → s.ppc = .done
   wakeup    : (s.wpc = .park ∨ s.wpc = .parked) → s.ppc = .done → s.token = true
   touched   : s.slotTouched = true → s.payload = true
-  finTerm   : s.fin.isFinal = true ∧ (s.fin = .terminated → s.payload = false)
-  arms      : (s.kind = .async → s.ppc ≠ .cas ∧ s.ppc ≠ .readHandle ∧ s.ppc ≠ .storeSync ∧ s.ppc ≠ .unpark ∧
-                 s.wpc ≠ .publish ∧ s.wpc ≠ .casStarv ∧ s.wpc ≠ .timedFinal ∧ s.wpc ≠ .timedIsTerm) ∧
-              (s.kind ≠ .async → s.ppc ≠ .cloneWaker ∧ s.ppc ≠ .storeAsync ∧ s.ppc ≠ .wake)
+  finTerm   : s.fin = .terminated → s.payload = false
   timedPc   : (s.wpc = .timedFinal ∨ s.wpc = .timedIsTerm) → s.kind = .timed
   accessPc  : s.ppc = .access → s.payload = true ∧ s.slotTouched = false
   wokenLe   : s.woken ≤ 1 ∧ (s.woken = 1 ↔ (s.kind = .async ∧ s.ppc = .done))
 
 theorem inv_init (kind : WKind) (fin : St) (payload : Bool) (hf : fin.isFinal = true)
     (ht : fin = .terminated → payload = false) : Inv (init kind fin payload) := by
-  cases kind <;> cases payload <;> constructor <;> simp_all [init, St.isFinal]
+  refine ⟨invA_init kind fin payload hf, ?_, ?_, ?_, ?_, ?_, ?_, ?_, ?_, ?_, ?_, ?_, ?_, ?_, ?_, ?_, ?_, ?_, ?_⟩ <;>
+    cases kind <;> cases payload <;> simp_all [init, St.isFinal]
 
-set_option maxHeartbeats 1000000 in
+set_option maxHeartbeats 2000000 in
 theorem inv_step {o : Ords} (ho : GoodOrds o) {s s' : State} {e : Ev} (h : Inv s) (hs : step o s e = some s') : Inv s' := by
-  obtain ⟨h1, h2, h3, h4, h5, h6, h7, h8, h9, h10, h11, h12, h13, h14, h15, h16, h17, h18, h19, h20⟩ := h
+  have ha' := invA_step h.a hs
+  obtain ⟨⟨a1, a2, a3, a4, a5, a6, a7, a8⟩, h1, h2, h3, h4, h5, h6, h7, h8, h8b, h9, h10, h11, h12, h13, h14, h15, h16, h17⟩ := h
   obtain ⟨o1, o2, o3, o4, o5, o6, o7, o8, o9⟩ := ho
-  cases e <;> simp only [step] at hs
-  all_goals (repeat' (split at hs))
-  all_goals first | (cases hs; done) | skip
-  all_goals cases hs
-  all_goals constructor
-  all_goals simp_all [touch, St.isFinal]
-  all_goals grind
+  have hc := St.final_cases s.st
+  have hf := St.final_cases s.fin
+  refine ⟨ha', ?_, ?_, ?_, ?_, ?_, ?_, ?_, ?_, ?_, ?_, ?_, ?_, ?_, ?_, ?_, ?_, ?_, ?_⟩
+  all_goals (cases e <;> sig_open hs)
+  all_goals grind [touch, St.isFinal]
+
+theorem inv_reach {o : Ords} (ho : GoodOrds o) {kind fin payload} (hf : fin.isFinal = true)
+    (ht : fin = .terminated → payload = false) (s : State) (h : Reach o kind fin payload s) : Inv s := by
+  induction h with
+  | init => exact inv_init kind fin payload hf ht
+  | step _ hs ih => exact inv_step ho ih hs
+
+/-- **C07 (no data race).** Under release/acquire orderings as strong as the extracted ones, in
+    every interleaving of the waiter and the peer — spin phase, starvation CAS, park loop with
+    spurious returns, timed waits, futures — every access to the payload slot and to the
+    thread-handle cell is ordered after the conflicting access. -/
+theorem c07_no_race {o : Ords} (ho : GoodOrds o) {kind fin payload} (hf : fin.isFinal = true)
+    (ht : fin = .terminated → payload = false) (s : State) (h : Reach o kind fin payload s) : s.racy = false :=
+  (inv_reach ho hf ht s h).noRace
+
+/-- **C07 (no access after the waiter is gone).** The peer never touches the signal (state word,
+    slot, waker, handle cell) after the owner's frame or future has gone: the final store (or the
+    successful CAS) is its last access, and the owner leaves only after seeing it. -/
+theorem c07_no_dangling {o : Ords} (ho : GoodOrds o) {kind fin payload} (hf : fin.isFinal = true)
+    (ht : fin = .terminated → payload = false) (s : State) (h : Reach o kind fin payload s) :
+    s.dangling = false ∧ (s.alive = false → s.ppc = .done ∨ s.ppc = .unpark ∨ s.ppc = .wake) := by
+  have hi := inv_reach ho hf ht s h
+  refine ⟨hi.noDangle, fun ha => ?_⟩
+  have : s.wpc = .gone := by
+    by_cases hg : s.wpc = .gone
+    · exact hg
+    · have := hi.aliveIff.mpr hg; simp_all
+  exact hi.a.peerOut (hi.goneFinal this)
+
+theorem step_fin {o : Ords} {s s' : State} {e : Ev} (hs : step o s e = some s') : s'.fin = s.fin := by
+  cases e <;> sig_open hs <;> simp [touch] <;> (try split) <;> rfl
+
+theorem reach_fin {o : Ords} {kind fin payload} (s : State) (h : Reach o kind fin payload s) : s.fin = fin := by
+  induction h with
+  | init => simp [init]
+  | step _ hs ih => rw [step_fin hs]; exact ih
+
+/-- **C07 (the waiter sees what the peer did).** When the waiter leaves with a result, it is the
+    final state the peer wrote, and if the peer touched the slot the waiter's observation
+    synchronised with the peer's releasing write. -/
+theorem c07_sees {o : Ords} (ho : GoodOrds o) {kind fin payload} (hf : fin.isFinal = true)
+    (ht : fin = .terminated → payload = false) (s : State) (h : Reach o kind fin payload s) (v : St) (sy : Bool)
+    (hd : s.wpc = .done v sy) : v = fin ∧ (s.slotTouched = true → sy = true) := by
+  have hi := inv_reach ho hf ht s h
+  obtain ⟨h1, h2, h3⟩ := hi.doneSees v sy hd
+  have hfin : s.fin = fin := reach_fin s h
+  exact ⟨by rw [h1, hi.a.finalIs h2, hfin], h3⟩
+
+/-- The orderings matter (1): with a relaxed final store the waiter's read of its slot races. -/
+theorem c07_needs_release_store :
+    ∃ s, Reach ⟨.relaxed, .acquire, .release, .acquire, .acquire, .acquire, .release, .acquire, .relaxed, .release⟩
+      .sync .unlocked true s ∧ s.racy = true := by
+  have h := Reach.run (o := ⟨.relaxed, .acquire, .release, .acquire, .acquire, .acquire, .release, .acquire, .relaxed, .release⟩)
+    (kind := .sync) (fin := .unlocked) (payload := true) Reach.init
+    [.wGiveUpSpin, .wPublish, .wCasStarv, .pAccess, .pCas, .pReadHandle, .pStoreSync, .pUnpark, .wPark, .wParkLoad, .wFinish]
+  simp [SigM.run, step, init, touch, St.isFinal, Ord.isAcquire, Ord.isRelease] at h
+  exact ⟨_, h, rfl⟩
+
+/-- The orderings matter (2): without the acquire fence after the relaxed spin load the read races. -/
+theorem c07_needs_fence :
+    ∃ s, Reach ⟨.relaxed, .relaxed, .release, .acquire, .acquire, .acquire, .release, .acquire, .release, .release⟩
+      .sync .unlocked true s ∧ s.racy = true := by
+  have h := Reach.run (o := ⟨.relaxed, .relaxed, .release, .acquire, .acquire, .acquire, .release, .acquire, .release, .release⟩)
+    (kind := .sync) (fin := .unlocked) (payload := true) Reach.init
+    [.pAccess, .pCas, .wLoad, .wFence, .wFinish]
+  simp [SigM.run, step, init, touch, St.isFinal, Ord.isAcquire, Ord.isRelease] at h
+  exact ⟨_, h, rfl⟩
+
+/-- The orderings of the source, as the model's parameter. -/
+def treeOrds : Ords :=
+  ⟨Tie.sigOrds.spinLoad, Tie.sigOrds.spinFence, Tie.sigOrds.starvCasSucc, Tie.sigOrds.starvCasFail, Tie.sigOrds.parkLoad,
+   Tie.sigOrds.timeoutFinal, Tie.sigOrds.wakeCasSucc, Tie.sigOrds.wakeCasFail, Tie.sigOrds.wakeStoreSync, Tie.sigOrds.wakeStoreAsync⟩
+
+theorem treeOrds_good : GoodOrds treeOrds := by
+  obtain ⟨h1, h2, h3, h4, h5, h6, h7, h8, h9⟩ := Tie.signal_ords_ok
+  exact ⟨h5, h6, h7, h8, h9, h1, h2, h3, h4⟩
+
+/-- **C07 for the code as it is now**: with the orderings extracted on this run, every waiter kind,
+    both final states. -/
+theorem c07_this_tree (kind : WKind) (fin : St) (payload : Bool) (hf : fin.isFinal = true)
+    (ht : fin = .terminated → payload = false) (s : State) (h : Reach treeOrds kind fin payload s) :
+    s.racy = false ∧ s.dangling = false :=
+  ⟨c07_no_race treeOrds_good hf ht s h, (c07_no_dangling treeOrds_good hf ht s h).1⟩
+
+/-- Non-vacuity: the full park path — waiter exhausts its spins, publishes, parks; the peer's CAS
+    fails, it reads the handle, stores, unparks; the waiter wakes, reads its slot and leaves. -/
+example : ∃ s, Reach treeOrds .sync .unlocked true s ∧ s.wpc = .gone ∧ s.ppc = .done ∧ s.slotTouched = true ∧ s.racy = false := by
+  have h := Reach.run (o := treeOrds) (kind := .sync) (fin := .unlocked) (payload := true) Reach.init
+    [.wGiveUpSpin, .wPublish, .wCasStarv, .wPark, .pAccess, .pCas, .pReadHandle, .pStoreSync, .wUnparked true, .wParkLoad, .pUnpark, .wFinish]
+  simp [SigM.run, step, init, touch, St.isFinal, treeOrds, Tie.sigOrds, Generated.atomics_signal_wait,
+    Generated.atomics_signal_wait_timeout, Generated.atomics_signal_wake, Ord.isAcquire, Ord.isRelease] at h
+  exact ⟨_, h, rfl, rfl, rfl, rfl⟩
 
 end Kanal.C07
+
+#print axioms Kanal.C07.c07_no_race
+#print axioms Kanal.C07.c07_no_dangling
+#print axioms Kanal.C07.c07_sees
+#print axioms Kanal.C07.c07_needs_release_store
+#print axioms Kanal.C07.c07_needs_fence
+#print axioms Kanal.C07.c07_this_tree
